@@ -235,6 +235,8 @@ type Probe struct {
 	MappedSeen  map[string]map[string]ObsList // q: primary key -> mapped key -> observation
 	ReadErrs    []string
 	MapCalls    int
+	captureRT   bool
+	rt          controller.Runtime // the runtime handle of the running plain controller (C17 drives UpdateInputs through it)
 	onReconcile func(p *Probe, r controller.Runtime) error
 	fault       func(p *Probe, where string) error
 }
@@ -274,6 +276,9 @@ func (p *Probe) readInput(ctx context.Context, r controller.Reader, in InputSpec
 // Run implements controller.Controller: the canonical reconcile loop.
 func (p *Probe) Run(ctx context.Context, r controller.Runtime, _ *zap.Logger) error {
 	p.RunStarts++
+	if p.captureRT {
+		p.rt = r
+	}
 	if p.fault != nil {
 		if err := p.fault(p, "run-start"); err != nil {
 			return err
